@@ -104,3 +104,28 @@ def entries_tree(rep):
 
 def path_lit(p):
     return "[" + "; ".join(LC.pystr(c) for c in p.split("/")) + "]"
+
+
+def latin1_edit_scenario(tmp, tag):
+    """A source file that is not valid UTF-8 (read through the Latin-1 fall-back) is scanned, then edited ONLY in bytes
+    that are invalid as UTF-8 (every \xe9 becomes \xe8: a function is renamed, a string changes), then scanned again with
+    the cache in place.
+    Returns (report with cache, report without cache, current bytes of the file, path of the file relative to the root)."""
+    root = os.path.join(tmp, f"latin1_{tag}")
+    os.makedirs(os.path.join(root, "pkg"))
+    rel = "pkg/legacy.py"
+    p = os.path.join(root, rel)
+    before = b"# -- legacy module --\ndef caf\xe9_total(a):\n    s = '\xe9\xe9\xe9\xe9\xe9\xe9\xe9\xe9'\n    return a\n\ndef plain(b):\n    return b\n"
+    after = before.replace(b"\xe9", b"\xe8")          # same length, only bytes that are invalid as UTF-8 differ
+    with open(p, "wb") as f:
+        f.write(before)
+    with open(os.path.join(root, "main.py"), "w") as f:
+        f.write("def main():\n    return 1\n")
+    run_scan(root, [])
+    with open(p, "wb") as f:
+        f.write(after)
+    with_cache, _ = run_scan(root, [])
+    shutil.rmtree(os.path.join(root, ".codelimit_cache"), ignore_errors=True)
+    without_cache, _ = run_scan(root, [])
+    shutil.rmtree(root, ignore_errors=True)
+    return with_cache, without_cache, after, rel
